@@ -38,7 +38,7 @@ RegGet(reg, radio) ==
 Dgram(f, sn, optlen, payload, radio) == [f |-> f, sn |-> sn, optlen |-> optlen, payload |-> payload, radio |-> radio]
 AckOf(m) == Dgram([m.f EXCEPT !.ack = TRUE, !.rej = FALSE], m.sn, m.optlen, "none", "")
 Heartbeat == Dgram([NoFlags EXCEPT !.hb = TRUE], 0, 0, "none", "")
-Answer(sn, radio) == Dgram([NoFlags EXCEPT !.opt = TRUE], sn, 0, "rrs_answer", radio)
+Answer(sn, radio) == Dgram(NoFlags, sn, 0, "rrs_answer", radio)      \* no option block, no option flag
 
 \* HSTRPDatagramProtocol.datagram_received: returns [h, sent, handled]
 HstrpRecv(h, m) ==
@@ -54,7 +54,7 @@ HstrpRecv(h, m) ==
        [h |-> [h EXCEPT !.connected = FALSE],
         sent |-> IF f.ack /\ ~AckTheAcks THEN <<>> ELSE <<AckOf(m)>>, handled |-> TRUE]
   ELSE IF f.ack THEN [h |-> h, sent |-> <<>>, handled |-> TRUE]
-  ELSE IF f.rej THEN [h |-> h, sent |-> <<AckOf(m)>>, handled |-> TRUE]
+  ELSE IF f.rej THEN [h |-> h, sent |-> <<>>, handled |-> TRUE]        \* a REJECT is the negative acknowledgement: not answered
   ELSE [h |-> h, sent |-> <<AckOf(m)>>, handled |-> FALSE]
 
 \* RRSDatagramProtocol.datagram_received on top of it
@@ -84,6 +84,8 @@ PureConnect(m) == m.f.conn /\ ~m.f.close /\ ~m.f.hb /\ ~m.f.ack /\ ~m.f.rej
 PureClose(m)   == m.f.close /\ ~m.f.conn /\ ~m.f.hb /\ ~m.f.ack /\ ~m.f.rej
 PureData(m)    == ~m.f.conn /\ ~m.f.close /\ ~m.f.hb /\ ~m.f.ack /\ ~m.f.rej
 IsAck(m)       == m.f.ack
+\* the negative form of an acknowledgement, as hstrp_send_ack(reject=True) forms it
+PureReject(m)  == m.f.rej /\ ~m.f.ack /\ ~m.f.conn /\ ~m.f.close /\ ~m.f.hb
 \* the acknowledgement of OUR connect / close as the peer's hstrp_send_ack forms it (the request's type bit kept, ack set):
 \* seeing it is seeing the connect / close completed
 ConnectAck(m)  == m.f.conn /\ m.f.ack /\ ~m.f.close /\ ~m.f.hb /\ ~m.f.rej
@@ -102,6 +104,7 @@ MonRecv(mon, m, o, preConnected) ==
         ELSE IF needsAck /\ \E i \in Acks(o.sent) :
                    o.sent[i].sn # m.sn \/ o.sent[i].payload # "none" THEN "AckSameSnNoPayload"
         ELSE IF judged /\ IsAck(m) /\ Acks(o.sent) # {} THEN "AcksNotAnswered"
+        ELSE IF judged /\ PureReject(m) /\ Acks(o.sent) # {} THEN "AcksNotAnswered(reject)"
         ELSE IF Hbs(o.sent) # {} /\ ~preConnected THEN "HeartbeatOnlyWhenConnected"
         ELSE IF judged /\ Hbs(o.sent) # {} /\ ~m.f.hb THEN "HeartbeatOnlyEchoed"
         ELSE IF judged /\ (PureConnect(m) \/ ConnectAck(m)) /\ ~o.connected THEN "ConnectedIsLastConnectClose"
